@@ -2,6 +2,7 @@ package rules
 
 import (
 	"golang.org/x/tools/go/ssa"
+	"strings"
 
 	"oryxverif/checker/internal/core"
 )
@@ -51,4 +52,22 @@ func init() {
 			}
 			return out
 		}})
+}
+
+// wsPayloadReader: the function of package websocket that reads frame payload from the connection's buffered reader
+// ((*messageReader).Read on the pinned tree; a helper of it when the per-frame read was extracted).
+func wsPayloadReader(P *core.Program) *ssa.Function {
+	var out *ssa.Function
+	for _, fn := range P.ModuleFuncs("websocket") {
+		core.EachInstr(fn, func(in ssa.Instruction) {
+			call, ok := in.(*ssa.Call)
+			if !ok || call.Call.StaticCallee() == nil || core.FullName(call.Call.StaticCallee()) != "(*bufio.Reader).Read" || len(call.Call.Args) < 2 {
+				return
+			}
+			if p := core.TypedPath(call.Call.Args[0]); (p == "Conn.br" || strings.HasSuffix(p, ".br")) && out == nil {
+				out = fn
+			}
+		})
+	}
+	return out
 }
